@@ -1099,6 +1099,11 @@ def run_metamorphic(simA, ops, transform=None, prop='C10', what='declared-implic
                     for o in all_outs(e):
                         if o not in simA.files:
                             simB.files.pop(o, None)
+                for o in models.phony_outs(simA.g):      # a file that carries the name of an alias
+                    if o in simA.files:
+                        simB.files[o] = dict(simA.files[o])
+                    else:
+                        simB.files.pop(o, None)
                 if op['op'] == 'drop_log':
                     es = simA.cmd_edges()
                     if es:
